@@ -206,6 +206,7 @@ func vRunRelay(ctx caddy.Context, sc vRelaySc) (res vRelayRes) {
 	var addrs []string
 	var upWG sync.WaitGroup
 	release := make(chan struct{}) // closed at the very end: upstream servers close their conns
+	kick := make(chan struct{})    // closed when a stalled scenario is released: whoever waits for EOF stops waiting
 	for i := 0; i < n; i++ {
 		ln, err := net.Listen("tcp", "127.0.0.1:0")
 		if err != nil {
@@ -236,7 +237,10 @@ func vRunRelay(ctx caddy.Context, sc vRelaySc) (res vRelayRes) {
 			}
 			_ = vWriteChunks(c, sc.uPayload[i], sc.uChunk, urng, -1)
 			if sc.uAfter[i] {
-				vWaitOr(u.rec.end, vStallT+vReleaseT)
+				select {
+				case <-u.rec.end:
+				case <-kick:
+				}
 			}
 			_ = c.(*net.TCPConn).CloseWrite()
 			<-release
@@ -293,7 +297,6 @@ func vRunRelay(ctx caddy.Context, sc vRelaySc) (res vRelayRes) {
 
 	crec := newVRecorder()
 	go crec.run(cc)
-	kick := make(chan struct{})
 	cliDone := make(chan struct{})
 	go func() {
 		defer close(cliDone)
@@ -532,7 +535,9 @@ func vRelayOracle(sc vRelaySc, r vRelayRes) [][2]string {
 			add("C03:halfclose:client-eof-missing"+wsuf, "the client never observed end-of-stream")
 		}
 		for i, e := range fin.upEOF {
-			if !e {
+			if sc.uAfter[i] && !r.s1.upEOF[i] {
+				add("C03:halfclose:upstream-eof-missing", fmt.Sprintf("the client finished sending but upstream %d did not observe end-of-stream while its own direction was still open", i))
+			} else if !e {
 				add("C03:halfclose:upstream-eof-missing", fmt.Sprintf("the client finished sending but upstream %d never observed end-of-stream", i))
 			}
 		}
@@ -574,7 +579,7 @@ func vRelayCase(out *vOut, sc vRelaySc, r vRelayRes) {
 	case sc.abort != "":
 		out.Case(fmt.Sprintf("RAbort %d %s %s %s %s %s %s", sc.peers, cHex(sc.cPayload), vHexList(sc.uPayload), vHexList(r.s2.up), vHexList(vProjCli(r.s2.cli, sc.peers)),
 			cBool(r.s2.returned), vBoolList(r.s2.closed)), "abort-"+sc.abort+"/"+cls, true, sc.describe())
-	case len(sc.cPayload) <= 2048 && maxU <= 2048:
+	case len(sc.cPayload) <= 1200 && maxU <= 1200:
 		out.Case(fmt.Sprintf("RExact %d %d %s %s %s %s %s %s %s %s %s %s %s", sc.peers, sc.pre, cHex(sc.cPayload), vHexList(sc.uPayload), cBool(sc.cAfter), vBoolList(sc.uAfter),
 			vChainCoq(sc.wrapper), vHexList(s.up), vHexList(proj), cBool(s.cliEOF), vBoolList(s.upEOF), cBool(s.returned), vBoolList(s.closed)), cls, nt, sc.describe())
 	default:
